@@ -28,7 +28,9 @@ KANI = {
     "C14": {"complete": [], "bounded": {"c14_bulk_get_is_elementwise_batch_2": "map <= 1 entry before the call, batch of 2 one-byte keys",
                                          "c14_bulk_delete_is_elementwise_batch_2_distinct": "map <= 1 entry, batch of 2 distinct one-byte keys",
                                          "c14_bulk_put_is_elementwise_batch_2_distinct": "map <= 1 entry, batch of 2 distinct one-byte keys, one-byte values",
-                                         "c14_put_from_iter_applies_in_order_batch_2": "map <= 1 entry, 2 pairs"}},
+                                         "c14_put_from_iter_applies_in_order_batch_2": "map <= 1 entry, 2 pairs",
+                                         "c14_bulk_get_is_elementwise_batch_3": "map <= 2 entries, batch of 3 one-byte keys (every order, repeats allowed)",
+                                         "c14_bulk_delete_is_elementwise_batch_3_distinct": "map <= 2 entries, batch of 3 distinct one-byte keys (every order)"}},
     "C17": {"complete": ["u3_free_list_head_offset", "u3_slot_walk_one_step"], "bounded": {"c17_touch_size_counts_each_touch_bounded_3": "3 touches, sizes <= 4",
                                                                                        "c17_touch_length_counts_each_touch_bounded_3": "3 touches, lengths <= 4"}},
     "C18": {"complete": ["u9_xorshift_is_documented_mixer", "u9_hasher_one_chunk"], "bounded": {}},
@@ -56,9 +58,51 @@ WITNESS = [
     (r"put_kt|del_kt|get_kt|find_in_hash|store_value|includes_key|load_value|::len",
      [["history", "1", "12", "300"], ["history", "5", "6", "800"], ["history", "9", "30", "800"], ["history", "11", "3", "500"], ["durable"]]),
     (r"flush|sync_all|sync_data|dirty", [["flushdur"], ["durable"], ["history", "1", "12", "300"]]),
-    (r"open_with_params|check_.*header|init_header|kani:c13|kani:c12", [["bufsize", "131072"], ["bufsize", "1000"], ["scan", "4", "a"], ["durable"], ["history", "1", "12", "300"]]),
+    (r"open_with_params|check_.*header|init_header|kani:c13|kani:c12", [["reopen"], ["bufsize", "131072"], ["bufsize", "1000"], ["scan", "4", "a"], ["sigmut"], ["durable"], ["history", "1", "12", "300"]]),
 ]
+# ---- bounded stand-in (labelled BOUNDED, never counted as proved): scenario families per property. Run in the thorough tier always,
+# and in the quick tier only when the deductive leg cannot decide (code moved out of the verifier's reach: lost anchor, unsupported
+# construct, resource limit). A failing scenario is a real failing input on the real crate -> VIOLATION; passing scenarios prove nothing.
+_H = [["history", "1", "12", "300"], ["history", "5", "6", "800"], ["history", "9", "30", "800"], ["history", "11", "3", "500"]]
+_SC = [["scan", "128", "k25", "k312", "k911", "k303"], ["scan", "8", "a", "b", "c", "d", "e", "f", "g", "h", "i", "j"], ["scan", "4", "a"],
+       ["scan", "64", "k1", "k2", "k3", "k4", "k5", "k6", "k7", "k8", "k9", "k10", "k11", "k12"]]
+BOUNDED_SCEN = {
+    "C01": _H + [["putget", "5000"], ["putsweep"]], "C02": [["reopen"], ["durable"]] + _H[:2], "C03": [["flushdur"], ["durable"]],
+    "C04": _SC + _H[:2], "C05": _H + [["reuse"]], "C06": [["reuse"], ["putsweep"]] + _H, "C07": [["bufsize", "131072"], ["bufsize", "1000"], ["reopen"], ["scan", "4", "a"]] + _H[:1],
+    "C08": _H, "C09": [["putget", "5000"], ["putget", "70000"], ["putsweep"]], "C12": [["reopen"]], "C13": [["sigmut"]], "C15": [["readonly"]],
+    "C14": [["bulk"]], "C16": [["flushdur"]], "C17": [["stats"]], "C18": [["determ"]],
+}
 _replay_built = [False]
+def _replay_exe():
+    import subprocess
+    rdir = os.path.join(ROOT, "replay"); tdir = os.path.join(ROOT, "out", "replay-target")
+    if not _replay_built[0]:
+        try:
+            subprocess.run(["cargo", "build", "--offline", "-q"], cwd=rdir, env=dict(os.environ, CARGO_TARGET_DIR=tdir, CARGO_NET_OFFLINE="true"),
+                           stdout=subprocess.DEVNULL, stderr=subprocess.DEVNULL, timeout=300)
+        except Exception:
+            return None
+        _replay_built[0] = True
+    exe = os.path.join(tdir, "debug", "abyss-replay")
+    return exe if os.path.exists(exe) else None
+
+def bounded_scenarios(prop, budget=240):
+    """runs every scenario of the property; returns list of dicts {argv, ok, output}"""
+    import subprocess
+    exe = _replay_exe()
+    out = []
+    if not exe: return out
+    t_end = time.time() + budget
+    for argv in BOUNDED_SCEN.get(prop, []):
+        if time.time() > t_end: break
+        try:
+            p = subprocess.run([exe] + argv, stdout=subprocess.PIPE, stderr=subprocess.STDOUT, text=True, timeout=90, env=dict(os.environ, RUST_BACKTRACE="0"))
+            tail = "\n".join(l for l in p.stdout.strip().split("\n") if "auto_activate_base" not in l)[-600:]
+            out.append({"argv": argv, "ok": p.returncode == 0, "output": tail})
+        except subprocess.TimeoutExpired:
+            out.append({"argv": argv, "ok": False, "output": "scenario did not terminate within 90 s (hang)"})
+    return out
+
 def witness_search(oid_):
     """returns (argv, output) of the first scenario that fails on the real crate, or None. Time-boxed."""
     import subprocess
@@ -96,8 +140,36 @@ def fkey(f):
     # stable key across re-runs (ignore rendered text)
     return (f["fn"], f["kind"], re.sub(r"\s+", " ", f.get("detail", "")))
 
+def do_replay(prop, path):
+    """replay a recorded violation against /repo's current tree"""
+    import subprocess
+    d = json.load(open(path))
+    print("obligation: %s (%s)" % (d.get("obligation"), d.get("backend")))
+    print("source: %s" % d.get("source"))
+    print("verifier output:\n%s" % (d.get("verifier_output") or "")[:3000])
+    w = d.get("witness")
+    if w and w.get("replay_scenario"):
+        exe = _replay_exe()
+        if not exe: print("replay binary could not be built"); return 2
+        argv = w["replay_scenario"].split()[1:]
+        p = subprocess.run([exe] + argv, stdout=subprocess.PIPE, stderr=subprocess.STDOUT, text=True, env=dict(os.environ, RUST_BACKTRACE="0"))
+        print("replay on the real crate: %s\n%s" % (w["replay_scenario"], p.stdout[-1500:]))
+        print("REPLAY %s" % ("reproduces" if p.returncode != 0 else "does not reproduce on this tree"))
+        return 1 if p.returncode != 0 else 0
+    print("no failing input was found for this obligation (no-failing-input-found); re-run ./check %s to see whether the obligation still fails" % prop)
+    return 0
+
+def kani_leg(prop, tier):
+    kcfg = KANI.get(prop)
+    if not kcfg: return {}
+    hs = list(kcfg["complete"]) + (KANI_THOROUGH_EXTRA.get(prop, []) if tier == "thorough" else []) + list(kcfg["bounded"].keys())
+    return kanileg.run(run.REPO, hs)
+
 def check(prop, tier, args):
     t0 = time.time()
+    fut_kani = None
+    if getattr(args, "replay", None):
+        return do_replay(prop, args.replay)
     seed = int(os.environ.get("VERIF_SEED", "0") or 0)
     outdir = os.path.join(ROOT, "out", prop)
     shutil.rmtree(outdir, ignore_errors=True)
@@ -130,24 +202,38 @@ def check(prop, tier, args):
         upath = os.path.join(outdir, "unit_%s.rs" % prop)
         open(upath, "w").write(unit.text)
         rl = 30 if tier == "quick" else 60
+        # the canary run and the Kani leg do not depend on the main run: start them now, join later
+        import concurrent.futures
+        pool = concurrent.futures.ThreadPoolExecutor(max_workers=3)
+        def _canary():
+            cunit_ = vx.generate(vx.Repo(run.REPO), ov, prop, canary=True)
+            cpath_ = os.path.join(outdir, "canary_%s.rs" % prop)
+            open(cpath_, "w").write(cunit_.text)
+            return cunit_, run.run_verus(cpath_, cunit_, rlimit=rl, seed=seed)
+        fut_canary = pool.submit(_canary)
+        fut_kani = pool.submit(kani_leg, prop, tier)
         r1 = run.run_verus(upath, unit, rlimit=rl, seed=seed)
         checker_cmds.append(r1.cmd)
         undecided += r1.undecided
         fails = r1.failures
         rlim = set(r1.fn_rlimit)
+        libfail = list(r1.library_failures)
         def expected(f):
             o = oid(f)
             return any(re.search(rx, o) for rx in NOT_ATTRIBUTED.get(prop, [])) or run.match_known(known, prop, o) is not None
         unexpected = [f for f in fails if not expected(f)]
-        if (unexpected or rlim) and not r1.undecided:
-            # re-run once with 4x resources and another seed: only failures that persist count
-            r2 = run.run_verus(upath, unit, rlimit=rl * 4, seed=seed + 7919)
+        if (unexpected or rlim or libfail) and not r1.undecided:
+            # second opinion: one z3 process per function (query independent of what was verified before it), 4x resources,
+            # another seed. Only failures that persist count; a proof-library failure that persists is UNDECIDED.
+            r2 = run.run_verus(upath, unit, rlimit=rl * 4, seed=seed + 7919, spinoff=True)
             checker_cmds.append(r2.cmd)
             undecided += r2.undecided
             k2 = {fkey(f) for f in r2.failures}
-            fails = [f for f in fails if fkey(f) in k2]
+            fails = [f for f in fails if fkey(f) in k2 or expected(f)]
             rlim = set(r2.fn_rlimit)
+            libfail = list(r2.library_failures)
             r1.fn_time.update(r2.fn_time)
+        undecided += libfail
         if tier == "thorough" and not fails and not rlim and not undecided:
             # stability: two more seeds
             for sd in (seed + 1, seed + 2):
@@ -172,11 +258,12 @@ def check(prop, tier, args):
             f["oid"] = oid(f); f["backend"] = "verus"
             failures.append(f)
         # vacuity guard: every verified function must reach its normal exit
-        if not undecided:
-            cunit = vx.generate(vx.Repo(run.REPO), ov, prop, canary=True)
-            cpath = os.path.join(outdir, "canary_%s.rs" % prop)
-            open(cpath, "w").write(cunit.text)
-            rc_ = run.run_verus(cpath, cunit, rlimit=rl, seed=seed)
+        try:
+            cunit, rc_ = fut_canary.result()
+        except Exception as e:
+            cunit, rc_ = None, None
+            if not undecided: undecided.append("canary generation failed: %s" % e)
+        if not undecided and rc_ is not None:
             can_ok = 0; can_bad = []
             hit = {f["fn"] for f in rc_.failures if f["kind"] == "assert" and "assert(false)" in f["detail"]}
             for q, info in cunit.fn_table.items():
@@ -195,11 +282,10 @@ def check(prop, tier, args):
     # ------------------------------------------------------------------ Kani leg
     kcfg = KANI.get(prop)
     if kcfg:
-        hs = list(kcfg["complete"]) + list(kcfg["bounded"].keys())
         if tier == "thorough":
             kcfg = dict(kcfg); kcfg["complete"] = list(kcfg["complete"]) + KANI_THOROUGH_EXTRA.get(prop, [])
-            hs = list(kcfg["complete"]) + list(kcfg["bounded"].keys())
-        kr = kanileg.run(run.REPO, hs)
+        hs = list(kcfg["complete"]) + list(kcfg["bounded"].keys())
+        kr = fut_kani.result() if fut_kani is not None else kani_leg(prop, tier)
         if kr.get("_undecided"):
             undecided.append("kani: " + kr["_undecided"])
         else:
@@ -223,6 +309,15 @@ def check(prop, tier, args):
                                      "rendered": kani_excerpt(kr.get("_log", ""), h), "src": None})
                 else:
                     undecided.append("kani harness %s did not run" % h)
+    # ------------------------------------------------------------------ bounded stand-in
+    if (undecided or tier == "thorough" or LEVEL.get(prop) == "other") and prop in BOUNDED_SCEN:
+        for r_ in bounded_scenarios(prop):
+            sc = "abyss-replay " + " ".join(r_["argv"])
+            bounded_parts.append({"scenario": sc, "bound": "one concrete history on the real crate (public API)", "status": "ok" if r_["ok"] else "FAILED"})
+            if not r_["ok"]:
+                failures.append({"fn": "bounded:" + "_".join(r_["argv"]), "kind": "scenario", "detail": "", "oid": "bounded:%s/scenario" % "_".join(r_["argv"]),
+                                 "backend": "replay binary on the real crate (BOUNDED stand-in)", "message": "scenario failed on the real code",
+                                 "rendered": r_["output"], "src": None, "witness": {"replay_scenario": sc, "real_code_output": r_["output"]}})
     # ------------------------------------------------------------------ classify
     violations = []; knowns = []
     not_attr = []
@@ -244,8 +339,8 @@ def check(prop, tier, args):
     for f in violations:
         os.makedirs(os.path.join(ROOT, "out", "replay", prop), exist_ok=True)
         rp = os.path.join(ROOT, "out", "replay", prop, sanitize(f["oid"]) + ".json")
-        witness = None
-        ws = witness_search(f["oid"])
+        witness = f.get("witness")
+        ws = None if witness else witness_search(f["oid"])
         if ws: witness = {"replay_scenario": "abyss-replay " + " ".join(ws[0]), "real_code_output": ws[1]}
         json.dump({"property": prop, "obligation": f["oid"], "backend": f["backend"], "message": f.get("message"),
                    "source": f.get("src"), "verifier_output": f.get("rendered"), "witness": witness,
@@ -266,7 +361,7 @@ def check(prop, tier, args):
     cov["explanation"] = "obligations = postcondition clauses + call-site preconditions + 2 x loop-invariant clauses + termination measures + panic/assert sites of every function verified in this run (syntactic count from the generated unit) + CBMC checks of the complete Kani harnesses; bounded harnesses are listed separately and never counted"
     ev["violations"] = len(violations)
     ev["wall_s"] = round(time.time() - t0, 2)
-    if obligations == 0 and not undecided:
+    if obligations == 0 and not undecided and not [b for b in bounded_parts if b.get("status") == "ok"]:
         undecided.append("no obligations generated"); lines.append("UNDECIDED property=%s no obligations generated" % prop)
     json.dump(ev, open(evpath, "w"), indent=1)
     for l in lines: print(l)
